@@ -141,7 +141,7 @@ type injWitness struct {
 func init() {
 	core.Register(&core.Prop{
 		ID: "C06",
-		Rule: "seeded generator of valid Go source files in 7 labelled shape classes (G1 protoc-gen-go shape, G2 many structs with other declarations interleaved, G3 key override/add/both, G4 non-ASCII, G5 values with $ \\ % and regex text, G6 multi-name/embedded/multi-line anonymous struct//* */ comments/generics/irregular spacing, G7 one-line anonymous struct containing a tag literal) plus real-world sources (protoc-gen-go output found in the module cache and standard-library files, annotated by the harness on fields of top-level struct declarations that have a conventional tag literal and no trailing comment: class RW; as they are: RW0), each processed by the library entry points and by the built CLI with -f, -d and -p; " +
+		Rule: "seeded generator of valid Go source files in 7 labelled shape classes (G1 protoc-gen-go shape, G2 many structs with other declarations interleaved, G3 key override/add/both, G4 non-ASCII, G5 values with $ \\ % and regex text, G6 multi-name/embedded/multi-line anonymous struct//* */ comments/generics/irregular spacing, G7 one-line anonymous struct containing a tag literal) plus real-world sources (protoc-gen-go output found in the module cache and standard-library files, annotated by the harness on fields of top-level struct declarations that have a conventional tag literal and no trailing comment: class RW; as they are: RW0), each processed by the library entry points and by the built CLI with -f, -d and -p (for lib / -f / -d also inside directories whose names contain glob or shell characters: [ ] * ? { } blank quote CJK); " +
 			"oracle: go/parser + hand-written tag scanner compute the expected merged key list per annotated field, every byte outside the annotated fields' tag literals must be unchanged, output must parse. distinct = distinct file content; non-trivial = file with >=1 annotated field",
 		Shards: func(t core.Tier) int { return 16 },
 		Run:    runC06,
@@ -169,7 +169,7 @@ func init() {
 	})
 	core.Register(&core.Prop{
 		ID:     "C07",
-		Rule:   "the C06 corpus (all shape classes and the real-world sources) plus annotation-free files; run histories of length 2-5 whose steps are drawn from {library call, CLI -f, -d, -p}; the bytes after run n+1 must equal the bytes after run n (n>=1) and annotation-free files must never change. distinct = distinct file content; non-trivial = file modified by run 1 (idempotence is not vacuous)",
+		Rule:   "the C06 corpus (all shape classes and the real-world sources) plus annotation-free files, comments repeating a key and the parseable-but-awkward shapes of C19 (grouped / local type declarations, missing literals, malformed @tag text); run histories of length 2-5 whose steps are drawn from {library call, CLI -f, -d, -p}; the bytes after run n+1 must equal the bytes after run n (n>=1) and annotation-free files must never change. distinct = distinct file content; non-trivial = file modified by run 1 (idempotence is not vacuous)",
 		Shards: func(t core.Tier) int { return 16 },
 		Run:    runC07,
 		Check: func(r *core.Result, t core.Tier) {
@@ -209,8 +209,15 @@ func init() {
 
 var reTagFirstItem = regexp.MustCompile("@tag (\\w+):\"([^\"`]*)\"")
 
-func c06Batch(c *core.Ctx, rng *rand.Rand, batch int, withFree bool) (dir string, names []string, classes map[string]string, before map[string][]byte) {
+// oddDirNames: legal directory names that mean something to a glob or a shell. A directory given
+// with -d (or a file path given with -f) is a path, not a pattern.
+var oddDirNames = []string{"pb[v1]", "gen[1-3]", "a b", "生成", "x*y", "q?", "{a,b}", "d'q", "tab\there", "[", "pb.go"}
+
+func c06Batch(c *core.Ctx, rng *rand.Rand, batch int, withFree bool, oddDir bool) (dir string, names []string, classes map[string]string, before map[string][]byte) {
 	dir = filepath.Join(c.WorkDir, fmt.Sprintf("b%d", batch))
+	if oddDir && batch%3 == 0 {
+		dir = filepath.Join(c.WorkDir, fmt.Sprintf("b%d", batch), oddDirNames[(batch/3)%len(oddDirNames)])
+	}
 	os.RemoveAll(dir)
 	os.MkdirAll(dir, 0o755)
 	n := 1 + rng.Intn(8)
@@ -226,6 +233,12 @@ func c06Batch(c *core.Ctx, rng *rand.Rand, batch int, withFree bool) (dir string
 			// wins is not documented), but a second run must still change nothing
 			src = reTagFirstItem.ReplaceAllString(src, `@tag $1:"$2" $1:"again"`)
 			cl = "G8rep"
+		}
+		if withFree && rng.Intn(7) == 0 {
+			// idempotence only (C07): the parseable-but-awkward shapes of C19 (grouped and local type
+			// declarations, fields without a literal, malformed @tag text, backquote values ...)
+			k := []string{"no-literal", "malformed-tag", "grouped", "grouped", "interpreted-literal", "empty-literal", "backquote-value"}[rng.Intn(7)]
+			src, cl = c19Awkward(rng, k), "AWK"+k
 		}
 		name := fmt.Sprintf("f%02d_%s.pb.go", i, strings.ToLower(cl))
 		os.WriteFile(filepath.Join(dir, name), []byte(src), 0o644)
@@ -276,8 +289,11 @@ func runC06(c *core.Ctx) {
 	}
 	B := c.Pick(120, 2500)
 	for b := 0; b < B; b++ {
-		dir, names, classes, before := c06Batch(c, rng, b, false)
 		mode := injModes[b%len(injModes)]
+		dir, names, classes, before := c06Batch(c, rng, b, false, mode != "-p")
+		if filepath.Base(filepath.Dir(dir)) != filepath.Base(c.WorkDir) {
+			res.Count("directories_with_glob_or_shell_characters")
+		}
 		c.Journal("C06 batch %d mode %s files %v", b, mode, names)
 		run := runInjector(c, mode, dir, names)
 		after := readAll(dir, names)
@@ -331,7 +347,7 @@ func runC07(c *core.Ctx) {
 	rng := c.Rng("idem")
 	B := c.Pick(60, 1200)
 	for b := 0; b < B; b++ {
-		dir, names, classes, before := c06Batch(c, rng, b, true)
+		dir, names, classes, before := c06Batch(c, rng, b, true, false)
 		steps := 2 + rng.Intn(4)
 		hist := []string{}
 		prev := before
@@ -464,6 +480,10 @@ func runC19(c *core.Ctx) {
 	awk := []string{"no-literal", "malformed-tag", "grouped", "interpreted-literal", "empty-literal", "backquote-value"}
 	for d := 0; d < D; d++ {
 		dir := filepath.Join(c.WorkDir, fmt.Sprintf("d%d", d))
+		if m := modes[d%len(modes)]; (m == "-d" || m == "-f") && d%4 == 1 {
+			dir = filepath.Join(dir, oddDirNames[(d/4)%len(oddDirNames)]) // a path is not a pattern
+			res.Count("directories_with_glob_or_shell_characters")
+		}
 		os.RemoveAll(dir)
 		os.MkdirAll(dir, 0o755)
 		n := 2 + rng.Intn(10)
